@@ -601,6 +601,10 @@ class JSONPathEnvironment:
         if isinstance(left, str) and isinstance(right, str):
             return left < right
 
+        # Booleans are not numbers in JSON, although `bool` is an `int` in Python.
+        if isinstance(left, bool) or isinstance(right, bool):
+            return False
+
         if isinstance(left, (int, float, Decimal)) and isinstance(
             right, (int, float, Decimal)
         ):
